@@ -124,6 +124,9 @@ def run_fault(cfg, entry, ch):
     w.call(entry)
     w.tick(full["breaker"]["recovery"])
     from redress.circuit import CircuitBreaker
+    # an observer (health check, metrics exporter) looks at the state first: reading it must
+    # not take the probe slot
+    w.trace.append(("observe", w.breaker.state.value))
     d = CircuitBreaker.allow(w.breaker)
     w.trace.append(("probe", d.allowed, d.state.value))
     v = monitor(w, full, d.allowed)
